@@ -230,7 +230,7 @@ template <class G> struct Monitor {
     std::string cls;
     ObsCounters oc;
     uint64_t callsByKind[KIND_COUNT] = {0};
-    uint64_t calls = 0, multPresent = 0, multAbsent = 0, totals = 0, noopChecks = 0, bigMultiplicities = 0;
+    uint64_t calls = 0, multPresent = 0, multAbsent = 0, totals = 0, noopChecks = 0, bigMultiplicities = 0, scaleHistories = 0, maxDegreeSeen = 0, longHistories = 0;
     uint64_t after[G_COUNT] = {0};
     uint64_t setOn[4] = {0}; // setEdgeMultiplicity on edges of multiplicity 0,1,2,>2
     Monitor(Reporter &R, const HistConfig &cfg, std::string cls) : R(R), cfg(cfg), cls(std::move(cls)) {}
@@ -246,6 +246,11 @@ template <class G> struct Monitor {
         R.count("mult_reads_absent_pair", multAbsent);
         R.count("total_edge_number_comparisons", totals);
         R.count("noop_exactness_checks", noopChecks);
+        R.count("long_histories_1200_to_2700_calls", longHistories);
+        longHistories = 0;
+        R.count("scale_histories_12_to_70_vertices", scaleHistories);
+        { uint64_t &m1 = R.counter("largest_neighbour_list_seen_max"); m1 = std::max(m1, maxDegreeSeen); }
+        scaleHistories = 0;
         for (int g = 1; g < G_COUNT; ++g)
             if (after[g]) R.count(std::string("mult_reads_after_") + goneName(g), after[g]);
         static const char *so[] = {"absent", "mult1", "mult2", "mult3plus"};
@@ -387,8 +392,27 @@ template <class G> struct Monitor {
         unsigned style = sub % 3;
         unsigned n0 = startN[(sub / 3) % 5];
         unsigned len = 8 + r.u(cfg.maxLen - 7);
-        Subject<G> s(n0);
+        unsigned maxN = cfg.maxN, checkEvery = 1;
         PairPicker pp;
+        bool scale = cfg.scaleEvery && sub % cfg.scaleEvery == 7;
+        if (scale) {
+            static const unsigned bigN[] = {12, 24, 40, 70};
+            n0 = bigN[(sub / cfg.scaleEvery) % 4];
+            maxN = n0 + 2;
+            len = 150 + r.u(n0 * 5);
+            checkEvery = 8;
+            style = 0;
+            pp.hub = (int)r.u(n0);
+            ++scaleHistories;
+        } else if (cfg.scaleEvery && sub % (cfg.scaleEvery * 4) == 11) {
+            len = 1200 + r.u(1500);
+            checkEvery = 16;
+            n0 = 3 + r.u(4);
+            ++longHistories;
+        }
+        Subject<G> s(n0);
+        Op prevOp;
+        bool havePrev = false;
         R.describeCase = [&] {
             return "{\"class\": " + q(cls) + ", \"start_size\": " + std::to_string(n0) + ", \"history\": " + s.histJson() + ", \"model_after\": " + q(s.m.str()) + "}";
         };
@@ -399,7 +423,12 @@ template <class G> struct Monitor {
         }
         uint64_t hh = n0;
         for (unsigned step = 0; step < len; ++step) {
-            Op op = gen(r, s, pp, style, step, len, cfg.maxN);
+            Op op = gen(r, s, pp, style, step, len, maxN);
+            if (havePrev && r.chance(1, 12) && !((prevOp.kind == ADD || prevOp.kind == ADDREC || prevOp.kind == ADDM || prevOp.kind == ADDRECM) &&
+                                                 (uint64_t)s.m.mult(prevOp.i, prevOp.j) + 2 * (uint64_t)prevOp.k + 2 > 0xffffffffULL))
+                op = prevOp; // the same call twice in a row (unless it would leave the 32-bit multiplicity range)
+            prevOp = op;
+            havePrev = true;
             bool noop = s.isNoop(op) && (op.kind == REMOVE || op.kind == REMOVEM || op.kind == SETM0) && !s.m.has(op.i, op.j); // removing an absent edge changes nothing
             std::vector<std::vector<VertexIndex>> before;
             if (noop) before = orderedLists(s.g);
@@ -421,11 +450,14 @@ template <class G> struct Monitor {
                     return;
                 }
             }
+            if (checkEvery > 1 && step % checkEvery != 0 && step + 1 != len) continue;
             std::string e = checkAll(s);
             if (!e.empty()) {
                 R.violation(cls + "/" + kindName(op.kind) + "/" + observerOf(e), "after " + op.str() + ": " + e);
                 return;
             }
+            if (scale)
+                for (VertexIndex v = 0; v < s.m.n; ++v) maxDegreeSeen = std::max<uint64_t>(maxDegreeSeen, s.g.getOutNeighbours(v).size());
             uint64_t sh = s.m.hash();
             R.states.insert(sh);
             hh = mix64(hh, sh);
@@ -454,7 +486,7 @@ template <class G> struct Monitor {
                 Edge e = pp.pick(r, n, s.m.e, directed, -1);
                 op.i = e.first; op.j = e.second;
                 Edge key = s.m.key(op.i, op.j);
-                if (!value.count(key)) value[key] = 1 + r.u(4);
+                if (!value.count(key)) value[key] = r.chance(1, 10) ? (r.chance(1, 2) ? 0xffffffffu : 1u << 31) : 1 + r.u(4);
                 op.k = value[key];
                 std::string err = s.apply(op);
                 ++calls; ++callsByKind[ADDM];
@@ -571,7 +603,7 @@ template <class G> struct Monitor {
                 Op op; op.i = kv.first.first; op.j = kv.first.second;
                 if (!directed && r.chance(1, 2)) std::swap(op.i, op.j);
                 if (r.chance(1, 2)) { op.kind = SETM0; op.k = 0; }
-                else { op.kind = REMOVEM; op.k = kv.second.mult + r.u(3); }
+                else { op.kind = REMOVEM; op.k = kv.second.mult > 0xfffffff0u ? kv.second.mult : kv.second.mult + r.u(3); }
                 repair.push_back(op);
             }
         for (auto &kv : T.e) {
